@@ -155,6 +155,8 @@ class Product:
             return 'B'
         if kind == 'Counter':
             return 'N'  # observed by the step invariant at every instant
+        if obj in getattr(self.scn, 'observed', ()) and self.node_w.get((t, n.id)):
+            return 'N'
         if len(self.obj_threads.get(obj, ())) <= 1 and kind != 'Thread':
             return 'B'
         if kind == 'Lock':
